@@ -37,6 +37,8 @@ func C17(r *core.Run) {
 	attributeIndependence(r, "sym_sites", "*")
 	// "primary-key fields are required": forced by the primary-key marker alone, whatever the key's format
 	requiredPropagation(r)
+	entityPartOwnAnnotation(r) // Keys is the one schema annotated as the keys part
+	statusNamesAsDeclared(r)
 	// what is generated for one declared command service / event / summary does not depend on the one before it
 	iterationIndependence(r, walkRel, "entity.go", "topic.go", "file.go", "service.go")
 }
